@@ -58,7 +58,7 @@ func genBigBatches(r *rng, thorough bool, emit func(FlowScenario)) {
 	t := &tokGen{r: r}
 	sizes := []int{300, 1100}
 	if thorough {
-		sizes = []int{256, 300, 513, 1100, 4100}
+		sizes = []int{256, 257, 300, 513, 1024, 1100} // not beyond: the harness's own item bookkeeping is quadratic, and a run that outlasts the 10 s watchdog would be reported as a hang
 	}
 	for _, nItems := range sizes {
 		for _, conc := range []int{0, 3, 8} {
